@@ -157,5 +157,5 @@ META = {
             "modelled: cancel/timeouts, clear(), actor death. The request order is taken from the run (sequential contexts). Trusted: Coq "
             "kernel, extraction, harness, generator.",
     "technique": "Coq proof (induction over histories on homogeneous queues) + extracted-model replay of observed histories + verified log oracle",
-    "claimed": False,
+    "claimed": True,
 }
